@@ -187,7 +187,8 @@ func (dc *DomConverter) visitElementNodeHandler(node *html.Node) bool {
 		}
 
 		// If anchor has Javascript and only contains simple text content, we treat it as text node.
-		if strings.HasPrefix(href, "javascript:") {
+		// An anchor without parent (the distilled root itself) can't be replaced, keep it as it is.
+		if strings.HasPrefix(href, "javascript:") && node.Parent != nil {
 			linkChildNodes := dom.ChildNodes(node)
 			if len(linkChildNodes) == 1 && linkChildNodes[0].Type == html.TextNode {
 				textNode := linkChildNodes[0]
